@@ -60,8 +60,10 @@ class TranslateMonitor:
         def get(cls, expression, in_cell):
             tok, rest = orig(cls, expression, in_cell)
             if tok is not None and mon._lex is not None and cls.__name__ != 'WhitespaceToken':
-                if isinstance(rest, str) and expression.endswith(rest):
-                    piece = expression[:len(expression) - len(rest)]
+                # whitespace at the very end of the formula may be dropped on the way ('$' also matches before a final line break): it
+                # is whitespace, not a part of the formula - the remainder has to be a suffix up to that
+                if isinstance(rest, str) and expression.rstrip().endswith(rest.rstrip()):
+                    piece = expression[:len(expression.rstrip()) - len(rest.rstrip())]
                     mon._lex.append(piece)
                     if cls.__name__ == 'LiteralToken' and piece[:1].isdigit() and not _NUMBER.fullmatch(piece):
                         # a numeric literal is digits[.digits][e[sign]digits]: a piece like "2e" or "1.5e+" swallowed a character
